@@ -22,6 +22,9 @@ type Toolchain struct {
 	Dir string // contains bin/ferret, bin/ferretd, libs/
 	// Server, when non-nil, is a persistent compile server (accelerator); CLI spawns are used otherwise.
 	Server *Server
+	// InProc, when set, compiles inside the calling process (native fuzzing: coverage feedback
+	// from the compiler packages); it returns nil when it cannot serve the request.
+	InProc func(dir string, o CompileOpts) *CompileResult
 }
 
 func (tc Toolchain) Ferret() string { return filepath.Join(tc.Dir, "bin", "ferret") }
@@ -153,6 +156,11 @@ type CompileOpts struct {
 // Compile compiles the project in dir: through the persistent server when one is
 // attached (and the options allow it), otherwise by running the real CLI.
 func (tc Toolchain) Compile(dir string, o CompileOpts) *CompileResult {
+	if tc.InProc != nil && len(o.ExtraArgs) == 0 && !o.ForceCLI && len(o.Env) == 0 {
+		if r := tc.InProc(dir, o); r != nil {
+			return r
+		}
+	}
 	if tc.Server != nil && len(o.ExtraArgs) == 0 && !o.ForceCLI {
 		if r := tc.Server.Compile(tc, dir, o); r != nil {
 			return r
